@@ -827,6 +827,39 @@ def r06j(ctx):
         raise AnalysisError(f"R06j: only {n} positional hand-over(s) of value options found")
 
 
+def r06k(ctx):
+    """A stored value is not traded for a default because it tests false.
+
+    `False`, `0`, `Decimal("0.0")`, `""` and `timedelta(0)` are values like any other; `stored or default` replaces each of them by the
+    default.  On the typed-value path that means a field whose stored value is false/zero/empty is rebuilt without any value attribute,
+    and reads back as None.  Today the modules that read and write typed values (cell, element_typed, variable, meta) use `or` only inside
+    conditions.  Rule (expected count 0 beyond conditions): in those modules no `a or b` is used *as a value* (assigned, passed, returned)
+    when `a` is read from a mapping or an accessor (`x.get(…)`, `get_value(…)`, `get_attribute…(…)`, a subscript).
+    """
+    repo = ctx.repo
+    ctx.rule("R06k", "on the typed-value path no stored value is replaced by a default through `or` (false, 0 and the empty string are values)", floor=100)
+    from ..core import parent as _parent
+    for f in repo.all_funcs():
+        if not f.file.endswith(("/cell.py", "/element_typed.py", "/variable.py", "/meta.py")):
+            continue
+        bad = []
+        for b in walk_no_nested(f.node):
+            if not (isinstance(b, ast.BoolOp) and isinstance(b.op, ast.Or)):
+                continue
+            par = _parent(b)
+            if isinstance(par, (ast.If, ast.While, ast.IfExp)) and par.test is b or isinstance(par, (ast.BoolOp, ast.UnaryOp, ast.Assert)):
+                continue
+            left = b.values[0]
+            read = isinstance(left, ast.Subscript) or (isinstance(left, ast.Call) and (call_name(left) in ("get", "pop") or call_name(left).startswith(("get_", "_get"))))
+            if read:
+                bad.append(b)
+        ctx.instance("R06k", f"{f.file}:{f.ident}", "no `stored or default`", ok=not bad, nontrivial=bool(bad), line=f.node.lineno)
+        for b in bad[:1]:
+            ctx.report("R06k", f, b, norm(b, 50),
+                       f"{f.ident} takes `{norm(b.values[0], 30)}` only if it tests true (`{norm(b, 50)}`): a stored False, 0, 0.0, empty string or zero duration is replaced by the default — "
+                       f"the element is written without that value and reads back as None (or as the caller's default)")
+
+
 def run(ctx):
     r06a(ctx)
     r06b(ctx)
@@ -838,6 +871,7 @@ def run(ctx):
     r06h(ctx)
     r06i(ctx)
     r06j(ctx)
+    r06k(ctx)
     # a typed string lives in an attribute value: serialising the element must not take anything out of it (rule shared with C12)
     from ..registry import build_registry
     from .c12 import r12o
@@ -853,6 +887,8 @@ from ..selftest import Seed, unparse_seed  # noqa: E402
 
 _ET = "src/odfdo/element_typed.py"
 SEEDS = [
+    Seed("UserDefined takes the stored value only if it tests true", "fault", "src/odfdo/variable.py",
+         "                    value = content.get(\"value\", None)\n", "                    value = content.get(\"value\") or value\n", "R06k"),
     Seed("NamedRange.set_value hands its options over in Row.set_value's order", "fault", "src/odfdo/table.py",
          "        table.set_value(  # type: ignore\n            coord=self.start,\n            value=value,\n            cell_type=cell_type,\n            currency=currency,\n            style=style,\n        )",
          "        table.set_value(self.start, value, style, cell_type, currency)  # type: ignore", "R06j"),
